@@ -58,6 +58,7 @@ def run(ctx) -> None:
   ctx.rule('R3', 'a metadata update naming a missing trial changes nothing and is reported', 3)
   ctx.rule('R4', 'designer policies write their state only under their reserved namespace root', 1)
   ctx.rule('R5', 'KeyValue.ns is written from Namespace.encode() and read through Namespace.decode()', 4)
+  ctx.import_rules('C04', {'R1', 'R4'}, 'R7', 'no lost metadata updates: whole-row read-modify-writes and metadata merges share a lock region')
   ctx.rule('R6', 'algorithm-issued metadata deltas are always forwarded to the datastore; '
            '_assign_value tests str, then Any, then packs other messages', 3)
   r1_codec(ctx)
@@ -350,6 +351,34 @@ def r6_forwarding(ctx) -> None:
                 'truthiness of a delta/Metadata only reflects part of its content (root namespace), so '
                 'trial-only or non-root entries issued by the algorithm are silently dropped',
                 construct=cond.test if cond else None, func=fi.qualname)
+      # the forwarded delta is the algorithm's delta itself: both metadata arguments derive from
+      # <decision>.metadata.on_study / .on_trials through the converter helpers only - no filtering
+      g = cfgmod.CFG(fi.node)
+      prov = flow.Provenance(g, on_call=lambda cc: 'args', on_attr=lambda a: 'stop')
+      node = g.node_of(c)
+      for idx, part in ((1, 'on_study'), (2, 'on_trials')):
+        if len(c.args) <= idx:
+          continue
+        arg = c.args[idx]
+        o = prov.origins(arg, node)
+        attrs = {(dotted(v) or '') for k, v in o if k == 'attr'}
+        direct = any(a.endswith(f'.metadata.{part}') or a.endswith(f'.metadata_delta.{part}') or a.endswith(f'.{part}') for a in attrs)
+        filtered = [x for k, v in o if k == 'iter' for x in [v]] or [
+            x for x in ast.walk(arg) if isinstance(x, (ast.DictComp, ast.ListComp, ast.GeneratorExp, ast.SetComp))]
+        # a local built by a filtering comprehension
+        comp_defs = []
+        for nm in flow.names_in(arg):
+          for d in prov.rd.at(node, nm):
+            if d.value is not None and isinstance(d.value, (ast.DictComp, ast.ListComp, ast.SetComp, ast.GeneratorExp)) \
+                and any(gen.ifs for gen in d.value.generators):
+              comp_defs.append(d.value)
+        ctx.check(direct and not comp_defs, 'R6', f'{name}: {part} forwarded as issued', c,
+                  f'argument derives from the decision\'s metadata.{part} without filtering',
+                  (f'the {part} delta handed to update_metadata is filtered first (`{unparse(comp_defs[0], 70)}`): entries naming a '
+                   'missing trial are silently dropped and the rest is applied, instead of the update failing as a whole and '
+                   'reporting the error') if comp_defs else
+                  f'the {part} argument does not derive from the algorithm\'s metadata delta',
+                  construct=f'{name}:{part}:filtered', func=fi.qualname)
   mod = ctx.index.need_module(MDUTIL)
   av = mod.functions.get('_assign_value')
   if av is None:
